@@ -272,8 +272,8 @@ class SCondition:
         if who is None:
             raise RuntimeError("unmanaged thread would wait on a scheduler condition")
         notified = self.sched.point(waiting=lambda: token[0], timed=timeout is not None)
-        if token in self.waiters:
-            self.waiters.remove(token)
+        # remove *this* token (identity, not equality: all un-notified tokens are equal lists)
+        self.waiters[:] = [t for t in self.waiters if t is not token]
         # re-acquire
         if not self.lock._free_for(who):
             self.sched.point(waiting=lambda: self.lock._free_for(who))
